@@ -54,26 +54,26 @@ theorem up_length (fixed : Fixed) : ∀ (free : List ℚ), (projectUp free fixed
       | nil => simp [projectUp, upTakesFree, ih]
       | cons p ps => simp [projectUp, upTakesFree, ih]
 
-/-! ### element types: the typed projection / objective / run are the untyped ones as long as the output of
-    `_project_params_up` is a float array (`upOutDtype` is generated from the allocation statement) -/
+/-! ### element types: the typed projection / objective / run are the untyped ones PROVIDED the output array of
+    `_project_params_up` keeps every value exactly (hypothesis `hs`; `Props/C12.lean` `C12_up_store` proves it from the generated
+    `upOutDtype`, i.e. from the allocation statement of the current source) -/
 
-/-- the output array of `_project_params_up` keeps every value exactly, whatever the element type of the reduced vector -/
-theorem upOut_store (dt : DType) (x : ℚ) : (upOutDtype dt).store x = x := by
-  cases dt <;> simp [upOutDtype, DType.store]
-
-theorem projectUpT_eq (dt : DType) (free : List ℚ) (fixed : Fixed) : projectUpT dt free fixed = projectUp free fixed := by
-  have h : (upOutDtype dt).store = id := by funext x; exact upOut_store dt x
+theorem projectUpT_eq (hs : ∀ (dt : DType) (x : ℚ), (upOutDtype dt).store x = x) (dt : DType) (free : List ℚ) (fixed : Fixed) :
+    projectUpT dt free fixed = projectUp free fixed := by
+  have h : (upOutDtype dt).store = id := by funext x; exact hs dt x
   simp [projectUpT, h]
 
-theorem projectUpTO_eq (dt : DType) (free : List ℚ) (fixed : Option Fixed) : projectUpTO dt free fixed = projectUpO free fixed := by
-  cases fixed <;> simp [projectUpTO, projectUpO, projectUpT_eq]
+theorem projectUpTO_eq (hs : ∀ (dt : DType) (x : ℚ), (upOutDtype dt).store x = x) (dt : DType) (free : List ℚ) (fixed : Option Fixed) :
+    projectUpTO dt free fixed = projectUpO free fixed := by
+  cases fixed <;> simp [projectUpTO, projectUpO, projectUpT_eq hs]
 
-theorem objectFuncT_eq (dt : DType) (lower upper : Option Bounds) (fixed : Option Fixed) (s : ℚ) (m : ModelFn) (params : List ℚ) :
+theorem objectFuncT_eq (hs : ∀ (dt : DType) (x : ℚ), (upOutDtype dt).store x = x) (dt : DType) (lower upper : Option Bounds)
+    (fixed : Option Fixed) (s : ℚ) (m : ModelFn) (params : List ℚ) :
     objectFuncT dt lower upper fixed s m params = objectFunc lower upper fixed s m params := by
-  simp only [objectFuncT, objectFunc, projectUpTO_eq]
+  simp only [objectFuncT, objectFunc, projectUpTO_eq hs]
 
-theorem evalVT_eq (dp da : DType) (expF logF : ℚ → ℚ) (pb : Problem) (xopt : List ℚ) :
-    ∀ e : VE, evalVT dp da expF logF pb xopt e = evalV expF logF pb xopt e := by
+theorem evalVT_eq (hs : ∀ (dt : DType) (x : ℚ), (upOutDtype dt).store x = x) (dp da : DType) (expF logF : ℚ → ℚ) (pb : Problem)
+    (xopt : List ℚ) : ∀ e : VE, evalVT dp da expF logF pb xopt e = evalV expF logF pb xopt e := by
   intro e
   induction e with
   | log e ih => simp [evalVT, evalV, ih]
@@ -83,18 +83,19 @@ theorem evalVT_eq (dp da : DType) (expF logF : ℚ → ℚ) (pb : Problem) (xopt
     simp only [evalVT, evalV, ih]
     congr 1
     funext v
-    exact projectUpTO_eq _ v pb.fixed
+    exact projectUpTO_eq hs _ v pb.fixed
   | _ => simp [evalVT, evalV]
 
-theorem wrapperObjectiveT_eq (dq : DType) (w : Wrapper) (expF logF : ℚ → ℚ) (pb : Problem) (m : ModelFn) :
-    wrapperObjectiveT dq w expF logF pb m = wrapperObjective w expF logF pb m := by
+theorem wrapperObjectiveT_eq (hs : ∀ (dt : DType) (x : ℚ), (upOutDtype dt).store x = x) (dq : DType) (w : Wrapper) (expF logF : ℚ → ℚ)
+    (pb : Problem) (m : ModelFn) : wrapperObjectiveT dq w expF logF pb m = wrapperObjective w expF logF pb m := by
   funext x
-  simp only [wrapperObjectiveT, wrapperObjective, objectFuncT_eq]
+  simp only [wrapperObjectiveT, wrapperObjective, objectFuncT_eq hs]
 
-theorem runWrapperT_eq (dp dq da : DType) (w : Wrapper) (expF logF : ℚ → ℚ) (pb : Problem) (m : ModelFn) (opt : Opt) (fuel : ℕ) :
+theorem runWrapperT_eq (hs : ∀ (dt : DType) (x : ℚ), (upOutDtype dt).store x = x) (dp dq da : DType) (w : Wrapper) (expF logF : ℚ → ℚ)
+    (pb : Problem) (m : ModelFn) (opt : Opt) (fuel : ℕ) :
     runWrapperT dp dq da w expF logF pb m opt fuel = runWrapper w expF logF pb m opt fuel := by
-  have hv : ∀ x, evalVT dp da expF logF pb x = evalV expF logF pb x := fun x => funext (evalVT_eq dp da expF logF pb x)
-  simp only [runWrapperT, runWrapper, wrapperObjectiveT_eq, hv]
+  have hv : ∀ x, evalVT dp da expF logF pb x = evalV expF logF pb x := fun x => funext (evalVT_eq hs dp da expF logF pb x)
+  simp only [runWrapperT, runWrapper, wrapperObjectiveT_eq hs, hv]
 
 /-- `p0` with the fixed values written over it -/
 def overwrite (full : List ℚ) (fixed : Fixed) : List ℚ := List.zipWith (fun p f => f.getD p) full fixed
